@@ -261,7 +261,16 @@ def run(ctx: Ctx) -> None:
 # ---------------------------------------------------------------------------- thorough tier
 
 
+GENERIC_FILES = ['permuta/patterns/perm.py', 'permuta/patterns/patt.py']
+
+
 def variants():
+    from ..selftest import generic_silent
+
+    return _variants() + generic_silent(GENERIC_FILES)
+
+
+def _variants():
     from ..selftest import V, insert_stmt, reformat_only, rename_local, replace_expr, replace_stmt
 
     PE, MP, PA = "permuta/patterns/perm.py", "permuta/patterns/meshpatt.py", "permuta/patterns/patt.py"
